@@ -1,10 +1,42 @@
 import AsynqModel.Sexp
 import AsynqModel.Core.Machine
 import AsynqModel.Core.Wire
-/-! driver glue for mode `core` (properties C01-C08, C20): replay a program in the machine with the implementation's
-    flush choices, diff the traces event by event, evaluate the property's Spec predicate on the implementation trace -/
+import AsynqModel.Core.Spec
+/-! driver glue for mode `core` (properties C01-C08): replay a program in the machine with the implementation's
+    flush choices, diff the traces event by event (projected to the events the property reads), evaluate the
+    property's Spec observer on the implementation trace and on the model trace -/
 namespace AsynqModel.Drv.Core
 open AsynqModel AsynqModel.Core AsynqModel.Core.Wire
+
+/-- the events a property's statement talks about (a disagreement elsewhere is not charged to it) -/
+def project (prop : String) (e : Event) : Option Event :=
+  let core : Option Event := match e with
+    | .top .. | .new .. | .run .. | .yield .. | .ret .. | .syncE .. | .syncX .. | .bad .. => some e
+    | .done .. => some e
+    | _ => none
+  match prop with
+  | "C01" => (match e with
+    | .read .. | .ctxN .. | .ctxX .. => some e
+    | _ => core)
+  | "C02" | "C03" => core
+  | "C04" => (match e with
+    | .flushB k q its _ _ => some (.flushB k q its (0, 0) [])
+    | .flushI .. => some e
+    | _ => core)
+  | "C05" => (match e with
+    | .flushB .. | .flushI .. | .flushE .. | .bdone .. | .done .. | .new .. | .top .. | .ret .. | .syncE .. | .syncX .. | .bad .. => some e
+    | _ => none)
+  | "C06" => (match e with
+    | .ctx .. | .ctxN .. | .ctxX .. | .run .. | .yield .. | .syncE .. | .syncX .. | .top .. | .ret .. | .bad .. => some e
+    | .flushB k q its _ _ => some (.flushB k q its (0, 0) [])
+    | _ => none)
+  | "C07" => (match e with
+    | .ctx .. | .ctxN .. | .ctxX .. | .read .. | .svals .. | .run .. | .top .. | .ret .. | .bad .. => some e
+    | _ => none)
+  | "C08" => (match e with
+    | .active .. | .sched .. | .top .. | .ret .. | .new .. | .syncE .. | .syncX .. | .bad .. => some e
+    | _ => none)
+  | _ => some e
 
 def firstDiff (m i : List Event) (n : Nat := 0) : Option (Nat × String) :=
   match m, i with
@@ -18,7 +50,7 @@ def choicesOf (tr : List Event) : List (Nat × Nat) :=
 
 def handle (id : Nat) (hdr : List Sexp) (body : List Sexp) : String :=
   match hdr with
-  | [.atom _prop, c, t] =>
+  | [.atom prop, c, t] =>
     match cfg? c, tops? t with
     | some cfg, some tops =>
       let impl := body.map event?
@@ -26,10 +58,17 @@ def handle (id : Nat) (hdr : List Sexp) (body : List Sexp) : String :=
       let s := runFuel (200 * impl.length + 100000) s0
       let model := s.trace.reverse
       let stuck := match s.stuck with | some m => s!" model-stuck: {m}" | none => (if s.isDone then "" else " model-out-of-fuel")
-      let corr := firstDiff model impl
+      let corr := firstDiff (model.filterMap (project prop)) (impl.filterMap (project prop))
+      let cx := Spec.mkCtx cfg tops
       let c := match corr with | none => (if stuck.isEmpty then "ok" else "diff") | some _ => "diff"
-      let d := match corr with | none => stuck | some (i, msg) => s!"event {i}: {msg}{stuck}"
-      s!"R {id} CORR={c} SPEC=ok SPECM=ok | {d}"
+      let d := match corr with | none => stuck | some (i, msg) => s!"projected event {i}: {msg}{stuck}"
+      let sp := match Spec.spec prop cx impl with
+        | none => ("ok", "")
+        | some (i, msg) => (s!"fail:{msg}", s!" spec: event {i} {(impl[i]?.map eventStr).getD ""}")
+      let spm := match Spec.spec prop cx model with
+        | none => "ok"
+        | some (_, msg) => s!"fail:{msg}"
+      s!"R {id} CORR={c} SPEC={sp.1} SPECM={spm} | {d}{sp.2}"
     | _, _ => s!"R {id} CORR=diff SPEC=ok SPECM=ok | unparsable cfg/tops"
   | _ => s!"R {id} CORR=diff SPEC=ok SPECM=ok | unparsable header"
 
